@@ -1,7 +1,7 @@
 SPECIFICATION TraceSpec
 CONSTANTS
   ChargeNoMetricInMaxUR = TRUE
-  ReqPolicySysUsage = FALSE
+  ReqPolicySysUsage = TRUE
 INVARIANT TypeOK
 CONSTRAINT Report
 CHECK_DEADLOCK FALSE
